@@ -45,7 +45,7 @@ prop( 'C16', [ 'T-RESERVED', 'D-DELEGATE', 'D-RESOLVE', 'D-UNPACK', 'D-ITER', 'D
       not_decided='path semantics over operation sequences (lookup/iteration/copy agreement is a dynamic, history-dependent claim).',
       technique='name-set comparison over class AST; delegation-shape checks' )
 
-prop( 'C19', [ 'M-EXTENT', 'M-TILE', 'M-BANK', 'M-LIMIT', 'M-PIECES', 'M-SNAPSHOT', 'W-ASSERT', 'W-CLASSSTATE', 'M-READCOUNT', 'M-POLLLIMIT' ],
+prop( 'C19', [ 'M-EXTENT', 'M-TILE', 'M-BANK', 'M-LIMIT', 'M-PIECES', 'M-SNAPSHOT', 'W-ASSERT', 'W-CLASSSTATE', 'M-READCOUNT', 'M-POLLLIMIT', 'M-FORGET' ],
       decides='M-PIECES: every range merge yields is a piece of a shatter() generator that is consumed by the emitting loop only (a second use of the generator object would leave nothing to yield).  M-EXTENT: in merge\'s sorted sweep the running length update in the merge branch depends on its previous value '
               '(monotone join), so a nested/duplicate range cannot shrink the extent; M-TILE: shatter yields (address, taken) once, '
               'advances address and shrinks count by the same taken = min( count, limit ); M-BANK: the merge condition, evaluated as a decision table over a grid of ( running range, next start, reach ) cells, merges exactly when the next range begins inside the running one ( whatever its 10000-block ) or lies in the same 10000-block with a gap below the reach; an empty range never extends the running range; over sorted '
